@@ -434,8 +434,19 @@ impl<
                 // `America/Sao_Paulo`.) And thus, this would return `None`.
                 // So if it does, we pretend as if the POSIX time zone doesn't
                 // exist.
+                //
+                // The transition according to the POSIX TZ is also only
+                // correct when it doesn't come before the last transition
+                // in the TZif data. It can when the given timestamp is
+                // less than a rule period after the last transition (e.g.,
+                // `America/Ciudad_Juarez` switched rules on 2022-11-30,
+                // after the POSIX rule's own transition on 2022-11-06).
                 if let Some(trans) = posix_tz.previous_transition(ts) {
-                    return Some(trans);
+                    if trans.timestamp().as_second()
+                        >= self.timestamps()[index]
+                    {
+                        return Some(trans);
+                    }
                 }
             }
             index
